@@ -18,6 +18,11 @@ CLAIMS = {
         design_ref="DESIGN.md §3 C11",
         note="Decides structural clauses R11.x only. The full address-class x protocol table and the loopback-from-network clause are not decided. Two ICMPv6 cases are listed in known_findings.json.",
         technique="static analysis: guard-dominance / must-pass-through over rustc MIR with origin-tree guard signatures"),
+    'C07': dict(
+        text="For all 24 wire view types with check_len: the lower bound of the buffer length established on every Ok path of check_len (interval evaluation of the compared expressions with getters inlined, per value of the discriminating getters such as message type / mode bits) covers every index and slice of every &self accessor, or the bytes that influence a slice bound are bytes check_len compared against the buffer length; no unsafe code reachable from wire::*; pretty-printers only touch checked views; every parser loop is iterator-driven or has a structural progress witness (cursor advance, strictly consuming parser, shrinking window); SACK validator/reader stride agreement.",
+        design_ref="DESIGN.md §3 C07",
+        note="Decides structural clauses R07.x (necessary conditions of panic-freedom/termination), not panic-freedom of every accessor on every byte string. ieee802154::Frame addressing/security accessors are reported as not decided. Trusted base as C17.",
+        technique="static analysis: interval + byte-provenance comparison of accessor bounds against check_len guarantees over MIR origin trees; loop progress witnesses; call-graph unsafe audit"),
 }
 
 NOT_YET = "structural rules for this property are not built yet in this revision; no static claim is made"
